@@ -63,4 +63,53 @@ theorem runSession_ok (cdc : Codec) (ws : Bool) (auth : Nat) (d : Describe) (tok
   intro p hp
   cases hp
 
+/-! ### readHttpMessage: Content-Length and body -/
+
+/-- the guard `cl < 0 || cl > maxHttpMsgBodyLength` is what keeps `make([]byte, cl)` in range -/
+theorem makeLen?_ok (site : String) (n : Int) (h0 : ¬ n < 0) (h1 : ¬ n > maxHttpMsgBodyLength) : makeLen? site n = .ok n.toNat := by
+  unfold makeLen?
+  unfold maxHttpMsgBodyLength at h1
+  rw [if_neg (by omega)]
+
+theorem readMsgBody_noPanic (cl : ContentLength) (avail : Bytes) : NoPanic (readMsgBody cl avail) := by
+  unfold readMsgBody
+  cases cl with
+  | absent => exact NoPanic.ok _
+  | bad => exact NoPanic.err
+  | val n =>
+    dsimp only
+    by_cases hg : n < 0 ∨ n > maxHttpMsgBodyLength
+    · rw [if_pos hg]; exact NoPanic.err
+    · rw [if_neg hg, makeLen?_ok _ n (by omega) (by omega)]
+      dsimp only
+      split
+      · exact NoPanic.ok _
+      · exact NoPanic.ok _
+
+/-- what it returns was received, and the body is never longer than the bound -/
+theorem readMsgBody_bounded (cl : ContentLength) (avail body rest : Bytes) (h : readMsgBody cl avail = .ok (some (body, rest))) :
+    body ++ rest = avail ∧ body.length ≤ maxHttpMsgBodyLength := by
+  unfold readMsgBody at h
+  cases cl with
+  | absent =>
+    simp only [Except.ok.injEq, Option.some.injEq, Prod.mk.injEq] at h
+    obtain ⟨hb, hr⟩ := h
+    subst hb; subst hr
+    exact ⟨rfl, Nat.zero_le _⟩
+  | bad => cases h
+  | val n =>
+    dsimp only at h
+    by_cases hg : n < 0 ∨ n > maxHttpMsgBodyLength
+    · rw [if_pos hg] at h; cases h
+    · rw [if_neg hg, makeLen?_ok _ n (by omega) (by omega)] at h
+      dsimp only at h
+      split at h
+      · cases h
+      · simp only [Except.ok.injEq, Option.some.injEq, Prod.mk.injEq] at h
+        obtain ⟨hb, hr⟩ := h
+        subst hb; subst hr
+        refine ⟨List.take_append_drop _ _, ?_⟩
+        simp only [List.length_take]
+        omega
+
 end Lal.RtspSrv
